@@ -62,6 +62,45 @@ pub fn check_step(ctx: &mut Ctx, s: &Step) -> Result<(), Violation> {
     if want != Status::Ongoing {
         ctx.sample(|| s.case_with(json!({"status": format!("{:?}", want)})));
     }
+    // one ply of look-ahead: the status of every successor as the library reaches it
+    // incrementally (make_move_new), so that every available mate, stalemate, en-passant
+    // capture and promotion is judged, not only the move the history happens to play
+    for &m in s.legal {
+        let np = p.apply(m);
+        let nb = b.make_move_new(crate::bridge::mv(m));
+        ctx.evals_add(1);
+        let nl = np.legal_moves();
+        let nchk = np.in_check(np.stm);
+        let nwant = if !nl.is_empty() {
+            Status::Ongoing
+        } else if nchk {
+            Status::Checkmate
+        } else {
+            Status::Stalemate
+        };
+        let ngot = match nb.status() {
+            BoardStatus::Ongoing => Status::Ongoing,
+            BoardStatus::Stalemate => Status::Stalemate,
+            BoardStatus::Checkmate => Status::Checkmate,
+        };
+        if nwant != Status::Ongoing {
+            ctx.class(if nwant == Status::Checkmate { "successor:checkmate" } else { "successor:stalemate" });
+            ctx.nontrivial(fp(&np));
+            if p.is_ep_capture(m) {
+                ctx.class("successor:terminal-after-en-passant");
+            }
+            if m.promo.is_some() {
+                ctx.class("successor:terminal-after-promotion");
+            }
+        }
+        if ngot != nwant {
+            ctx.fail(
+                &format!("status:{:?}-reported-as-{:?}", nwant, ngot),
+                format!("after {}: status() = {:?}; rules: in check = {}, legal moves = {} => {:?}", m.uci(), ngot, nchk, nl.len(), nwant),
+                s.case_with(json!({"then": m.uci()})),
+            )?;
+        }
+    }
     Ok(())
 }
 
@@ -146,6 +185,21 @@ pub fn run(cfg: &Cfg) -> i32 {
             ctx.count("enum4_raw_placements", raw);
             ctx.count("enum4_valid_positions_checked", valid);
         }
+        // planted pattern: en-passant capture landing next to the enemy king (mates, stalemates
+        // and plain checks through the capture are otherwise almost never generated)
+        let tape = proptest::collection::vec(proptest::prelude::any::<u16>(), 64);
+        engine::pbt(ctx, seedf(3), cfg.per_shard(160_000, 1_600_000), &tape, |ctx, tp: &Vec<u16>| {
+            match crate::gen::plant_ep_near_king(&mut crate::gen::Tape::new(tp)) {
+                Some(p) => {
+                    ctx.class("start:planted-en-passant-next-to-king");
+                    common::visit_position(ctx, &p, &check_step)
+                }
+                None => {
+                    ctx.reject();
+                    Ok(())
+                }
+            }
+        })?;
         let pol = [Policy::Endgame, Policy::Special, Policy::Uniform];
         common::histories(ctx, seedf(1), cfg.per_shard(20_000, 400_000), 10, 120, Some(&pol), &check_step)?;
         Ok(())
@@ -154,7 +208,7 @@ pub fn run(cfg: &Cfg) -> i32 {
     engine::finish(
         report,
         EvidenceSpec {
-            rule: "cases = positions: complete enumeration of K+X v K (X in Q,R,B,N,P; either colour; either side to move), six four-man classes (KQvKR, KRvKR, KBNvK, KPvKP, KQvKP, KNNvK: every 97th placement in quick, all in thorough), curated mates/stalemates and their neighbours, and every position of long generated histories (capture-seeking, special-move-seeking and uniform policies, up to 120 plies). evaluations = positions. Non-trivial = terminal position, or in check with exactly one legal reply; distinct = position fingerprints.".into(),
+            rule: "cases = positions: complete enumeration of K+X v K (X in Q,R,B,N,P; either colour; either side to move), six four-man classes (KQvKR, KRvKR, KBNvK, KPvKP, KQvKP, KNNvK: every 97th placement in quick, all in thorough), curated mates/stalemates and their neighbours, planted positions in which an en-passant capture lands diagonally next to the enemy king amid crowded pieces, and every position of long generated histories (capture-seeking, special-move-seeking and uniform policies, up to 120 plies). at every position the status of every successor reached through make_move_new is judged as well (one ply of look-ahead). evaluations = positions + successors. Non-trivial = terminal position, or in check with exactly one legal reply; distinct = position fingerprints.".into(),
             assumptions: vec!["reference in_check and legal_moves".into()],
             trusted_base: vec!["harness/src/refmodel.rs".into(), "proptest 1.11".into()],
             exhaustive: None,
